@@ -70,8 +70,22 @@ Inductive dop :=
 | DPkts (ps : list dpkt) (ret : list (N * Z * bool))  (* per ReadFrom return: digest of p[:n], port of addr, err *)
 | DDrain (evs : list pev) (stuns : list N).           (* drained Events(), digests of drained STUN Message.Raw *)
 
-(* ServerPuncher histories.  At most one Respond is in flight at a time (SOpRStart .. SOpREnd);
-   the attempts registered by SOpAdd stand for other attempts in progress. *)
+(* what a started Respond was observed to do once everything had settled *)
+Inductive robs :=
+| ObsBlocked              (* registered and waiting in its select *)
+| ObsErr (e : rerr)       (* returned at once through this validation exit *)
+| ObsDup                  (* returned at once: duplicate id *)
+| ObsOther.               (* returned at once with an error the harness could not classify: never matches *)
+
+Definition rerr_eqb (a b : rerr) : bool :=
+  match a, b with
+  | REId, REId | REMeta, REMeta | RECand, RECand | RETimeout, RETimeout | REInterval, REInterval => true
+  | _, _ => false
+  end.
+
+(* ServerPuncher histories.  At most one Respond is waiting at a time (SOpRStart .. SOpREnd); calls
+   that return at once (a validation exit, duplicate id) may be made while it waits.  The attempts
+   registered by SOpAdd stand for other attempts in progress. *)
 Inductive sop :=
 | SOpAdd (id : list byte) (m : rmeta) (ok : bool)
 | SOpRm (id : list byte) (evs : list pev)           (* what was waiting in the channel, drained just before removeAttempt *)
@@ -79,8 +93,11 @@ Inductive sop :=
     (* datagrams read through the conn, every event dispatched (and taken by the Respond in flight)
        before the next one is read; per ReadFrom return: digest of p[:n], port of addr, err *)
 | SOpTake (id : list byte) (evs : list pev)         (* everything waiting in that attempt's channel *)
-| SOpRStart (id : list byte) (m : rmeta) (ok : bool)
-    (* Respond(id, m) started and observed once it is blocked (ok) or has already returned an error *)
+| SOpRStart (a : rargs) (r : robs)
+    (* Respond called with these arguments (ra_ncand = what candidatePunchAddrs returned for the
+       address lists of the call: oracle) and observed once it is blocked or has returned *)
+| SOpStop
+    (* the context given to NewServerPuncher is cancelled and the dispatch goroutine has returned *)
 | SOpREnd (noev : bool) (e : option pev).
     (* the Respond in flight is observed to its end: noev = it was still waiting and ended by
        timeout / cancellation; otherwise e = the event it returned with (None: it never registered) *)
@@ -221,7 +238,8 @@ Fixpoint s_recv_all (orc : list byte -> bool) (obs : list pev) (s : sstate) (w :
       else match sstep256 orc s (SConn (ARecv (k_bytes k) (k_addr k) (pick_obs obs))) with
            | Ok (s', SOConn (OPass p from)) => s_recv_all orc obs s' w got t ((digest p, a_port from, false) :: acc)
            | Ok (s', SOConn _) =>
-               (* the dispatch goroutine forwards the event before the next datagram is read ... *)
+               (* the dispatch goroutine (if it has not stopped: SDispatch does nothing then, the event
+                  stays in the conn's queue) forwards the event before the next datagram is read ... *)
                match sstep256 orc s' SDispatch with
                | Ok (s'', _) =>
                    match w with
@@ -284,14 +302,29 @@ Fixpoint srun_ops (orc : list byte -> bool) (obs : list pev) (s : sstate) (w : o
   | SOpTake id evs :: t =>
       let '(s', evs') := s_take_all orc (S defaultServerPunchEventBuffer) s id [] in
       pevs_eqb evs evs' && srun_ops orc obs s' w got t
-  | SOpRStart id m ok :: t =>
-      match w, got with
-      | None, None =>
-          match sstep256 orc s (SAdd id m) with
-          | Ok (s', SOAdd ok') => Bool.eqb ok ok' && srun_ops orc obs s' (if ok' then Some id else None) None t
+  | SOpRStart a r :: t =>
+      match respond_precheck a with
+      | Ok (Some e) =>
+          (* a validation exit: nothing happens on the server *)
+          match r with ObsErr e' => rerr_eqb e e' | _ => false end && srun_ops orc obs s w got t
+      | Ok None =>
+          match sstep256 orc s (SAdd (ra_id a) (ra_meta a)) with
+          | Ok (s', SOAdd true) =>
+              match r, w, got with
+              | ObsBlocked, None, None => srun_ops orc obs s' (Some (ra_id a)) None t
+              | _, _, _ => false                       (* the harness never lets two Responds wait *)
+              end
+          | Ok (s', SOAdd false) =>
+              (* duplicate: returns before the defer, the Respond that waits is not disturbed *)
+              match r with ObsDup => true | _ => false end && srun_ops orc obs s' w got t
           | _ => false
           end
-      | _, _ => false                                  (* the harness never nests two Responds *)
+      | _ => false
+      end
+  | SOpStop :: t =>
+      match sstep256 orc s SStop with
+      | Ok (s', _) => srun_ops orc obs s' w got t
+      | _ => false
       end
   | SOpREnd noev e :: t =>
       match w with
@@ -319,7 +352,7 @@ Definition check (c : case) : bool :=
   | CDemux cap ops =>
       oracle_sane ops && drun (oracle (stun_set ops)) (all_obs ops) (d_new cap) ops
   | CServer cap ops =>
-      srun_ops (oracle (s_stun_set ops)) (s_all_obs ops) (mkS (d_new cap) []) None None ops
+      srun_ops (oracle (s_stun_set ops)) (s_all_obs ops) (mkS (d_new cap) [] true) None None ops
   end.
 
 Definition mismatches (l : list case) : list nat := mism_from check 0 l.
